@@ -26,7 +26,8 @@
                            children (they return early when there is no text)
      has_violation / goodb   the executable forms of `exists j, reach /\ violated` and `good` *)
 From PV Require Import Lib.Base Model.Schema Model.Validate Gen.SchemaTables
-  Proofs.Schema_lemmas Proofs.Validate_lemmas Proofs.Validate_table Proofs.Validate_anchor.
+  Proofs.Schema_lemmas Proofs.Validate_lemmas Proofs.Validate_table Proofs.Validate_anchor
+  Model.Duration Proofs.Duration_lemmas.
 Open Scope N_scope.
 
 (* ---------------------------------------------------------------- rejection *)
@@ -206,8 +207,8 @@ Print Assumptions C13_no_escape_hatch_applies.
 (* ------------------------------------------------------------ lexical tests look at the whole value *)
 (* the Gallina validators are anchored at both ends: junk after or before an accepted boolean is refused; an
    accepted integer is, between the blanks int() strips, one optional sign and digits / single underscores
-   only; a name token holds no white space (line breaks included) at any place.  dateTime / duration are
-   parameters of the model (sample table compared with the real functions). *)
+   only; a name token holds no white space (line breaks included) at any place.  duration: see the end of the file;
+   dateTime is a parameter of the model (sample table compared with the real functions). *)
 Theorem C13_boolean_anchored :
   forall v j, prim_boolean v = true -> j <> [] -> prim_boolean (v ++ j) = false /\ prim_boolean (j ++ v) = false.
 Proof. exact boolean_anchored. Qed.
@@ -294,3 +295,76 @@ Theorem C13_domain_name_repaired :
   forallb prim_domain HOSTS = true /\ forallb (fun h => negb (prim_domain h)) NOT_HOSTS = true.
 Proof. exact domain_after_fix. Qed.
 Print Assumptions C13_domain_name_repaired.
+
+(* ------------------------------------------------------------ duration: time_util.parse_duration, line by line *)
+(* Model/Duration.v follows parse_duration with the repair proposed_fix/C13-4 (valid_duration = it does not raise).
+     shape isint islast fmt r   r is made of items of the format list fmt, in its order (Y M D T H M S for D_FORMAT):
+                                an absent item is skipped; an item is a number accepted by isint followed by its
+                                designator, with more items behind it; the LAST item is a number accepted by islast
+                                and its designator, and nothing after it; T is followed by items of the time part
+     num_int v                  v is [0-9]+
+     num_last v                 v is [0-9]+ or [0-9]+ mark [0-9]+, the mark . or ,
+     duration_shape s           s = -? P r  with  shape num_int num_last D_FORMAT r
+   An accepted value is of that shape AS A WHOLE, and every value of the shape is accepted. *)
+Theorem C13_duration_whole_value :
+  forall s, is_ok (parse_duration s) = true <-> duration_shape s.
+Proof. exact duration_iff. Qed.
+Print Assumptions C13_duration_whole_value.
+
+(* with the sign and P at their places; the same statement holds for ANY pair of number readers (python int() /
+   float() included): the loop itself cannot accept anything but items in the order of the format list *)
+Theorem C13_duration_whole_value_any_numbers :
+  forall int_of float_of cut s neg f, parse_with int_of float_of cut true s = Ok (neg, f) ->
+    exists r, s = sign_text neg ++ 80 :: r /\ shape (int_ok int_of) (last_ok int_of float_of) D_FORMAT r.
+Proof. exact parse_with_sound. Qed.
+Print Assumptions C13_duration_whole_value_any_numbers.
+
+(* after the P an accepted value holds digits, . , and Y M D T H S only, and ends with the designator of an item *)
+Theorem C13_duration_alphabet :
+  forall s neg f, parse_duration s = Ok (neg, f) ->
+    exists r, s = sign_text neg ++ 80 :: r /\ forallb dur_char r = true /\ exists r0 c, r = r0 ++ [c] /\ item_code c = true.
+Proof. exact duration_alphabet. Qed.
+Print Assumptions C13_duration_alphabet.
+
+(* nothing may follow the last designator: an accepted value followed by non-empty junk that holds a character other
+   than a digit, a decimal mark or Y M D T H S (a blank, a line break, a letter, a second P ...), or that does not
+   end with one of Y M D H S (more digits, a T, a mark), is refused *)
+Theorem C13_duration_junk_refused :
+  forall s j, is_ok (parse_duration s) = true -> j <> [] ->
+    existsb (fun c => negb (dur_char c)) j = true \/ item_code (last j 0) = false ->
+    exists e, parse_duration (s ++ j) = Err e.
+Proof. exact duration_junk_refused. Qed.
+Print Assumptions C13_duration_junk_refused.
+
+(* history.  Before /repo 24b91977 the index was never compared with the length after the loop: *)
+Theorem C13_duration_before_fix_refuted :
+  is_ok (parse_duration_before_fix (s2l "PT1Hjunk")) = true /\ parse_duration (s2l "PT1Hjunk") = Err D_EXCEPTION /\
+  parse_duration_py_numbers (s2l "PT1Hjunk") = Err D_EXCEPTION.
+Proof. exact before_fix_refuted. Qed.
+Print Assumptions C13_duration_before_fix_refuted.
+
+(* Before C13-4 (parse_duration_py_numbers: /repo at 24b91977) the numbers were whatever int() / float() read - blanks, a
+   sign, underscores, exponents, inf, nan, INFINITY with its T and Y: FULL STATEMENT C13_duration_whole_value failed *)
+Theorem C13_duration_numbers_before_fix_refuted :
+  LIBERAL_NUMBERS <> [] /\ forallb (fun s => is_ok (parse_duration_py_numbers s)) LIBERAL_NUMBERS = true /\
+  forallb (fun s => negb (is_ok (parse_duration s))) LIBERAL_NUMBERS = true.
+Proof. split; [discriminate|exact numbers_before_fix_refuted]. Qed.
+Print Assumptions C13_duration_numbers_before_fix_refuted.
+
+(* ... and the M of the minutes was taken for the month designator: VALID durations (a date part without months, the
+   minutes last) were refused - the right-to-left half of C13_duration_whole_value failed *)
+Theorem C13_duration_minutes_before_fix_refuted :
+  MINUTES_LAST <> [] /\ forallb (fun s => negb (is_ok (parse_duration_py_numbers s))) MINUTES_LAST = true /\
+  forallb (fun s => is_ok (parse_duration s)) MINUTES_LAST = true.
+Proof. split; [discriminate|exact minutes_before_fix_refuted]. Qed.
+Print Assumptions C13_duration_minutes_before_fix_refuted.
+
+(* non-vacuity: a value with all six items and a fraction, its fields, its shape; a blank after it is refused *)
+Example C13_duration_example :
+  parse_duration (s2l "-P1Y2M3DT4H5M6.50S") =
+    Ok (true, F (NInt 1) (NInt 2) (NInt 3) (NInt 4) (NInt 5) (NDec 6 (s2l "50"))) /\
+  parse_duration (s2l "P1DT30M") = Ok (false, F (NInt 0) (NInt 0) (NInt 1) (NInt 0) (NInt 30) (NInt 0)) /\
+  duration_shape (s2l "-P1Y2M3DT4H5M6.50S") /\
+  (exists e, parse_duration (s2l "-P1Y2M3DT4H5M6.50S" ++ s2l " ") = Err e).
+Proof. exact duration_example. Qed.
+Print Assumptions C13_duration_example.
